@@ -107,7 +107,8 @@ def to_trace(sc, res, k):
             "realsize": (res["rows"] if k == nruns - 1 else -1) if ok else -1,
             "realrms": (res["rms_rows"] - rms_off_rows if k == nruns - 1 else -1) if ok else -1,
             "syncbad": res.get("n_sync_bad", 0) if ok else 0, "satlen": res.get("sat_len", ns) if ok else ns,
-            "padbad": res.get("pad_bad", 0) if ok else 0, "lsb": max(lsb, 0)}
+            "padbad": res.get("pad_bad", 0) if ok else 0, "appendbad": res.get("append_bad", 0) if ok else 0,
+            "lsb": max(lsb, 0)}
 
 
 def choose(ctx, tuples):
@@ -145,6 +146,7 @@ def choose(ctx, tuples):
             # saturated stretches across a batch seam and at the very end
             S = s["nbatch"] - 2 * T
             s["sat"] = [[max(S + T - 5, 10), min(S + T + 6, s["ns"] - 1)], [s["ns"] - 9, s["ns"]]]
+            s["compare"] = True
         elif m == 5:
             s["wrot"] = 0.5
             s["compare"] = True
